@@ -941,8 +941,17 @@ def _repo_effects(pkg_dir: str, root: str, overlay) -> None:
                 if nm_ is not None:
                     sites.setdefault(nm_, []).append((len([a for a in c.args if not isinstance(a, ast.Starred)]), {k.arg for k in c.keywords if k.arg},
                                                       any(isinstance(a, ast.Starred) for a in c.args) or any(k.arg is None for k in c.keywords)))
+        # names inside annotations are not uses (`-> PeriodicMessageTask`, `node: RemoteNode`)
+        annot = set()
+        for f_ in ast.walk(t):
+            if isinstance(f_, ast.FunctionDef):
+                for a_ in [f_.returns] + [y.annotation for y in ast.walk(f_.args) if isinstance(y, ast.arg)]:
+                    if a_ is not None:
+                        annot |= {id(y) for y in ast.walk(a_)}
+            elif isinstance(f_, ast.AnnAssign):
+                annot |= {id(y) for y in ast.walk(f_.annotation)}
         for x in ast.walk(t):
-            if id(x) in callfuncs:
+            if id(x) in callfuncs or id(x) in annot:
                 continue
             if isinstance(x, ast.Attribute) and isinstance(x.ctx, ast.Load) and x.attr in funcnames:
                 bare.add(x.attr)
@@ -2315,6 +2324,7 @@ def canonicalise(tree: ast.Module, rel: str = "") -> ast.Module:
         if canon.drop_fresh_observational(tree, ref, _REPO_OBSERVATIONAL):
             tree = _Canonical().visit(tree)
         canon.drop_fresh_widening_guards(tree, ref)
+        canon.flatten_fresh_locks(tree, ref)
         tree = _Canonical().visit(tree)
         canon.inline_fresh_helpers(tree, ref, protect_renames=True)
         canon.rename_fresh_members(tree, ref)
@@ -2351,6 +2361,7 @@ def canonicalise(tree: ast.Module, rel: str = "") -> ast.Module:
                     def shape():
                         if rf is not None:
                             from . import canon
+                            canon.flatten_reraising_try(n, rf)
                             canon.normalise_expression_forms(n, rf)
                             canon.thread_none_flag(n, known)
                             canon.specialise_constant_tail(n, rf)
